@@ -1,6 +1,6 @@
 (* C10 — Every language is recognised from its own identifiers; forcing always wins.
    Model: Model/LangSelect.v (check_public_id with its ONE shared index, the header part of
-   wbxml_parser_parse, wbxml_tables_search_table with its shared index, the DOCTYPE-then-root chain,
+   wbxml_parser_parse, wbxml_tables_search_table (after fix 8a5d5ba: root scan restarts at 0 and compares local names), the DOCTYPE-then-root chain,
    wbxml_fill_header's choice); specification side and per-language checks: Model/LangSelectCheck.v;
    proofs: Proofs/LangSelectProofs.v.  TablesData.main_table is regenerated on every run (29 entries). *)
 From Coq Require Import List NArith String Bool.
